@@ -98,6 +98,11 @@ WHITELIST = [
      {"x0": "float", "y0": "float", "x1": "float", "y1": "float", "x2": "float", "y2": "float"}, "float", {}),
     ("util/geometry.py", "isSegmentIntersects", "isSegmentIntersects", {"segment1": "list[float]", "segment2": "list[float]"}, "bool", {}),
     ("core/obs_time.py", "ObsTime.isLeapYear", "isLeapYear", {"year": "int"}, "bool", {}),
+    ("core/obs_time.py", "ObsTime.readUnixTime", "ObsTime_readUnixTime", {"elapsed_seconds": "float"}, "object[ObsTime]",
+     {"sec": "int", "year": "int", "month": "int"}),
+    ("core/obs_time.py", "ObsTime.toAbsTime", "ObsTime_toAbsTime",
+     {"self": {"year": "int", "month": "int", "day": "int", "hour": "int", "min": "int", "sec": "int", "ms": "int"}}, "float",
+     {"seconds": "int"}),
     ("core/spatial_index.py", "SpatialIndex.__getCell", "SpatialIndex_getCell",
      {"self": {"xmin": "float", "xmax": "float", "ymin": "float", "ymax": "float", "dX": "float", "dY": "float",
                "csize": "int", "lsize": "int"},
@@ -127,8 +132,10 @@ MATH_FUNS = {"sqrt": (1, "F", "α → α"), "sin": (1, "F", "α → α"), "cos":
              "floor": (1, "I", "α → Int"),      # math.floor
              "trunc": (1, "I", "α → Int"),      # int(x) on a float: truncation toward zero
              "pi": (0, "F", "α"),               # math.pi
-             "pow": (2, "F", "α → α → α")}      # x ** y and pow(x, y) with a float operand (C's pow)
-MATH_ORDER = ["pi", "sqrt", "sin", "cos", "tan", "atan", "atan2", "exp", "log", "pow", "floor", "trunc"]
+             "pow": (2, "F", "α → α → α"),      # x ** y and pow(x, y) with a float operand (C's pow)
+             "nan": (0, "F", "α"),              # float("nan") (and a module constant defined so)
+             "inf": (0, "F", "α")}              # float("inf"), a literal that overflows to infinity (1e400)
+MATH_ORDER = ["nan", "inf", "pi", "sqrt", "sin", "cos", "tan", "atan", "atan2", "exp", "log", "pow", "floor", "trunc"]
 LEAN_KEYWORDS = {"«", "at", "from", "end", "fun", "in", "do", "then", "else", "if", "let", "have", "show", "by", "match",
                  "with", "where", "def", "theorem", "open", "section", "namespace", "variable", "instance", "class",
                  "structure", "import", "Type", "Prop", "Sort", "forall", "exists", "using", "this", "mut", "for",
@@ -157,6 +164,8 @@ def parse_ty(s):
         return ("L", parse_ty(s[5:-1]))
     if s.startswith("optional[") and s.endswith("]"):
         return ("O", parse_ty(s[9:-1]))
+    if s.startswith("unbound[") and s.endswith("]"):
+        return ("U", parse_ty(s[8:-1]))      # a local that may be read before it is assigned (only in `locals`)
     if s.startswith("tuple[") and s.endswith("]"):
         parts, depth, cur = [], 0, ""
         for ch in s[6:-1]:
@@ -181,7 +190,7 @@ def lean_ty(t):
         return "Bool"
     if t[0] == "L":
         return "(List %s)" % lean_ty(t[1])
-    if t[0] == "O":
+    if t[0] in ("O", "U"):
         return "(Option %s)" % lean_ty(t[1])
     if t[0] == "T":
         return "(" + " × ".join(lean_ty(x) for x in t[1]) + ")"
@@ -196,7 +205,7 @@ def uses_alpha(t):
     if isinstance(t, tuple) and t[0] == "Obj":
         return True
     if isinstance(t, tuple):
-        if t[0] in ("L", "O"):
+        if t[0] in ("L", "O", "U"):
             return uses_alpha(t[1])
         return any(uses_alpha(x) for x in t[1])
     return False
@@ -212,7 +221,7 @@ def tuple_proj(term, i, n):
 
 RESERVED = {"decide", "Int", "Nat", "List", "Option", "Bool", "Py", "some", "none", "true", "false", "Type", "TV",
             # tokens the engine greps for in every Lean source
-            "sorry", "admit", "native_decide", "bv_decide", "implemented_by", "unsafe", "axiom", "maxHeartbeats"} | set(MATH_FUNS)
+            "fuel", "sorry", "admit", "native_decide", "bv_decide", "implemented_by", "unsafe", "axiom", "maxHeartbeats"} | set(MATH_FUNS)
 
 
 def ident(name):
@@ -221,9 +230,68 @@ def ident(name):
         raise Unsupported("python name %s would capture a name used by the generated code" % name)
     if name in LEAN_KEYWORDS:
         return "«%s»" % name
-    if name.startswith("py_t"):
+    if name.startswith("py_"):
         raise Unsupported("python name %s collides with the translator's temporaries" % name)
     return name
+
+
+# ------------------------------------- continuation contexts (loops) ------------------------------------
+class KFun:
+    """what `return`, falling off the end, `break`, `continue` mean at function level"""
+    def __init__(self, tr):
+        self.tr = tr
+
+    def end(self, env):
+        if isinstance(self.tr.ret, tuple) and self.tr.ret[0] == "O":
+            return "(.ok none)"
+        raise Unsupported("a path falls off the end of the function (returns None) but the declared return type is not optional")
+
+    def ret(self, term):
+        return "(.ok %s)" % term
+
+    def brk(self, node, env):
+        bad(node, "break outside a loop")
+
+    def cont(self, node, env):
+        bad(node, "continue outside a loop")
+
+
+class KJoin:
+    """inside the branches of an `if` translated with a join: falling off the end yields the tuple of the joined variables;
+    return / break / continue cannot occur (checked before the rule is chosen)"""
+    def __init__(self, tr, state):
+        self.tr, self.state = tr, state
+
+    def end(self, env):
+        return "(.ok %s)" % self.tr.pack(self.state, env)
+
+    def ret(self, term):
+        raise Unsupported("internal: return inside a joined if")
+
+    def brk(self, node, env):
+        bad(node, "internal: break inside a joined if")
+
+    def cont(self, node, env):
+        bad(node, "internal: continue inside a joined if")
+
+
+class KLoop:
+    """inside a loop body: the end of the body and `continue` give `.cont state`, `break` gives `.brk state`,
+    `return e` gives `.ret e`"""
+    def __init__(self, tr, state):
+        self.tr, self.state = tr, state
+
+    def end(self, env):
+        return "(.ok (Py.Ctl.cont %s))" % self.tr.pack(self.state, env)
+
+    def ret(self, term):
+        return "(.ok (Py.Ctl.ret %s))" % term
+
+    def brk(self, node, env):
+        return "(.ok (Py.Ctl.brk %s))" % self.tr.pack(self.state, env)
+
+    def cont(self, node, env):
+        return "(.ok (Py.Ctl.cont %s))" % self.tr.pack(self.state, env)
 
 
 # --------------------------------------------- one function ----------------------------------------------
@@ -237,7 +305,10 @@ class Val:
 class FnTranslator:
     def __init__(self, unit, entry):
         self.unit = unit
-        self.path, self.pyname, self.lean, params, ret, locs = entry
+        self.path, self.pyname, self.lean, params, ret, locs = entry[:6]
+        self.opts = entry[6] if len(entry) > 6 else {}
+        self.uses_fuel = False   # the function (or one it calls) has a `while` loop: extra parameter `fuel : Nat`
+        self.nloop = 0
         # a parameter declared with a dict is an object of which only the listed attributes ("name") and argument-less
         # pure accessor methods ("name()") are read: each becomes one Lean parameter `<param>_<name>`
         self.params = {}
@@ -327,7 +398,10 @@ class FnTranslator:
                     bad(e, "negative constant")
                 return Val("(%d : Int)" % v, "I", lit=v)
             if type(v) is float:
-                if v != v or v in (float("inf"), float("-inf")):
+                if v == float("inf"):
+                    self.math.add("inf")      # a literal that overflows (1e400): +infinity
+                    return Val("inf", "F")
+                if v != v or v == float("-inf"):
                     bad(e, "non-finite float literal")
                 self.need("OfScientific")
                 r = repr(v)
@@ -350,6 +424,12 @@ class FnTranslator:
                 bad(e, "name %s is not a parameter, a module constant or a local bound on every path to here" % e.id)
             if isinstance(env[e.id], tuple) and env[e.id][0] in ("R", "Obj"):
                 bad(e, "object %s used as a value (only its attributes can be read)" % e.id)
+            if isinstance(env[e.id], tuple) and env[e.id][0] == "U":
+                t = self.tmp()                  # UnboundLocalError when not yet assigned
+                binds.append((t, "(Py.getBound %s)" % ident(e.id)))
+                return Val(t, env[e.id][1])
+            if isinstance(env[e.id], tuple) and env[e.id][0] == "L" and env[e.id][1] is None:
+                bad(e, "list %s has no element type yet: declare it in the signature" % e.id)
             return Val(ident(e.id), env[e.id])
         if isinstance(e, ast.UnaryOp):
             v = self.expr(e.operand, env, binds)
@@ -413,7 +493,15 @@ class FnTranslator:
             v = self.expr(e.value, env, binds)
             k = e.slice
             if not (isinstance(k, ast.Constant) and type(k.value) is int and k.value >= 0):
-                bad(e, "subscript that is not a literal >= 0")
+                # computed index: Python's rule for negative indices, IndexError out of range
+                if isinstance(k, (ast.Slice, ast.Tuple)) or not (isinstance(v.ty, tuple) and v.ty[0] == "L"):
+                    bad(e, "subscript that is not a literal >= 0 on a tuple / a slice")
+                iv = self.expr(k, env, binds)
+                if iv.ty != "I":
+                    bad(e, "list index that is not an int")
+                t = self.tmp()
+                binds.append((t, "(Py.getIdx %s %s)" % (v.term, iv.term)))
+                return Val(t, v.ty[1])
             if isinstance(v.ty, tuple) and v.ty[0] == "L":
                 t = self.tmp()
                 binds.append((t, "(Py.getItem %s %d)" % (v.term, k.value)))
@@ -424,9 +512,17 @@ class FnTranslator:
                 return Val(tuple_proj(v.term, k.value, len(v.ty[1])), v.ty[1][k.value])
             bad(e, "subscript of a %s" % (v.ty,))
         if isinstance(e, ast.Attribute):
-            if isinstance(e.value, ast.Name) and e.value.id == "math" and "math" not in env and e.attr == "pi":
-                self.math.add("pi")
-                return Val("pi", "F")
+            if isinstance(e.value, ast.Name) and e.value.id == "math" and "math" not in env and e.attr in ("pi", "inf", "nan"):
+                self.math.add(e.attr)
+                return Val(e.attr, "F")
+            if isinstance(e.value, ast.Name) and e.value.id not in env and e.value.id not in self.assigned:
+                c = self.unit.class_constant(e.value.id, e.attr)
+                if c is not None:
+                    b = []
+                    v = self.expr(c, {}, b)          # a class-level constant: literal arithmetic / list of literals
+                    if b:
+                        bad(e, "class constant %s.%s is not plain literal arithmetic" % (e.value.id, e.attr))
+                    return v
             if isinstance(e.value, ast.Name) and env.get(e.value.id) == ("R", e.value.id):
                 fields = self.records[e.value.id]
                 if e.attr not in fields:
@@ -489,6 +585,14 @@ class FnTranslator:
             t = self.tmp()
             binds.append((t, "(Py.fdiv %s %s)" % (x, y)))
             return Val(t, "F")
+        if isinstance(op, ast.RShift):
+            if not (a.ty == "I" and b.ty == "I"):
+                bad(e, ">> on non-ints")
+            if b.lit is not None and b.lit >= 0:
+                return Val("(Int.shiftRight %s %d)" % (a.term, b.lit), "I")
+            t = self.tmp()
+            binds.append((t, "(Py.ishr %s %s)" % (a.term, b.term)))      # ValueError on a negative count
+            return Val(t, "I")
         if isinstance(op, (ast.Mod, ast.FloorDiv)):
             if not (a.ty == "I" and b.ty == "I"):
                 bad(e, "% or // on floats")
@@ -501,6 +605,13 @@ class FnTranslator:
         bad(e, "operator %s" % type(op).__name__)
 
     def cmp2(self, node, op, a, b, anode, bnode):
+        if isinstance(op, (ast.In, ast.NotIn)):
+            # membership in a list of ints / of tuples of ints (decidable equality is Python's == there)
+            def discrete(t):
+                return t in ("I", "B") or (isinstance(t, tuple) and t[0] == "T" and all(discrete(x) for x in t[1]))
+            if not (isinstance(b.ty, tuple) and b.ty[0] == "L" and b.ty[1] == a.ty and discrete(a.ty)):
+                bad(node, "`in` is only accepted for an int / a tuple of ints in a list of the same")
+            return ("(Py.contains %s %s)" if isinstance(op, ast.In) else "(!Py.contains %s %s)") % (b.term, a.term)
         if a.ty == "I" and b.ty == "I":
             x, y = a.term, b.term
             if isinstance(op, ast.Eq):
@@ -614,13 +725,19 @@ class FnTranslator:
                 args.append(self.as_float(a, v))
             elif v.ty == pt:
                 args.append(v.term)
+            elif v.ty == ("L", "I") and pt == ("L", "F"):
+                self.need("IntCast")           # a list display of ints where floats are read: converted element-wise
+                args.append("(List.map (fun (py_k : Int) => ((py_k : Int) : α)) %s)" % v.term)
             else:
                 bad(a, "argument %s of %s: a %s where a %s is declared" % (pn, callee.pyname, v.ty, pt))
+        if callee.uses_fuel:
+            self.uses_fuel = True
         self.needs |= callee.needs
         self.ofnat |= callee.ofnat
         self.math |= callee.math
         t = self.tmp()
-        binds.append((t, "(%s)" % " ".join([callee.lean] + [m for m in MATH_ORDER if m in callee.math] + args)))
+        binds.append((t, "(%s)" % " ".join([callee.lean] + [m for m in MATH_ORDER if m in callee.math]
+                                             + (["fuel"] if callee.uses_fuel else []) + args)))
         return Val(t, callee.ret)
 
     def call(self, e, env, binds):
@@ -632,6 +749,25 @@ class FnTranslator:
             return Val(None, "S")
         if isinstance(f, ast.Name) and f.id == "str" and "str" not in env and len(e.args) == 1:
             return Val(None, "S")
+        if isinstance(f, ast.Name) and f.id == "float" and "float" not in env and len(e.args) == 1 \
+                and isinstance(e.args[0], ast.Constant) and isinstance(e.args[0].value, str):
+            word = e.args[0].value.strip().lower()
+            if word in ("nan", "inf", "+inf", "infinity", "+infinity"):
+                word = "nan" if word == "nan" else "inf"
+                self.math.add(word)
+                return Val(word, "F")
+            bad(e, "float() of a string")
+        if isinstance(f, ast.Name) and f.id == "len" and "len" not in env and len(e.args) == 1:
+            v = self.expr(e.args[0], env, binds)
+            if not (isinstance(v.ty, tuple) and v.ty[0] == "L"):
+                bad(e, "len of something that is not a list")
+            return Val("(Py.len %s)" % v.term, "I")
+        if isinstance(f, ast.Name) and f.id not in env and f.id in self.opts.get("assume_identity", ()) and len(e.args) == 1:
+            # DECLARED in the signature: on this argument the call returns its argument unchanged (e.g. `listify` on a list)
+            v = self.expr(e.args[0], env, binds)
+            if not (isinstance(v.ty, tuple) and v.ty[0] == "L"):
+                bad(e, "%s is only assumed to be the identity on a list" % f.id)
+            return v
         # argument-less accessor of a declared object parameter
         if isinstance(f, ast.Attribute) and isinstance(f.value, ast.Name) and env.get(f.value.id) == ("R", f.value.id):
             fields = self.records[f.value.id]
@@ -689,6 +825,19 @@ class FnTranslator:
                         return args[0]
                     self.math.add("trunc")
                     return Val("(trunc %s)" % args[0].term, "I")
+                if name == "abs" and len(args) == 1 and args[0].ty == "I":
+                    return Val("(Py.iabs %s)" % args[0].term, "I")
+                if name in ("min", "max") and len(args) >= 2 and all(a.ty == "I" for a in args):
+                    acc = args[0].term         # CPython: the first among the smallest / greatest
+                    for a in args[1:]:
+                        acc = "(Py.i%s %s %s)" % (name, acc, a.term)
+                    return Val(acc, "I")
+                if name in ("min", "max") and len(args) > 2 and all(a.ty in ("F", "I") for a in args):
+                    self.need("DecidableLT")
+                    acc = self.as_float(e.args[0], args[0])
+                    for n_, a in zip(e.args[1:], args[1:]):
+                        acc = "(Py.f%s %s %s)" % (name, acc, self.as_float(n_, a))
+                    return Val(acc, "F")
                 if name == "abs":
                     if len(args) != 1 or args[0].ty != "F":
                         bad(e, "abs of a non-float")
@@ -708,18 +857,239 @@ class FnTranslator:
             cf = self.unit.ctor_fields(name)
             if cf is not None:
                 # C(a1, .., an): the object as the tuple of its attributes
-                if len(e.args) != len(cf):
-                    bad(e, "constructor call with defaulted arguments")
-                vals = [self.expr(a, env, binds) for a in e.args]
-                if any(v.ty not in ("F", "I") for v in vals):
-                    bad(e, "constructor argument that is not a number")
-                return Val("(" + ", ".join(self.as_float(a, v) for a, v in zip(e.args, vals)) + ")", ("Obj", name))
+                fields, types, terms = self.ctor_args(e, name, list(e.args), env, binds)
+                return Val("(" + ", ".join(terms) + ")", ("Obj", name))
             callee = self.unit.lookup(name, self)
         elif isinstance(f, ast.Attribute) and isinstance(f.value, ast.Name) and f.value.id not in env:
             callee = self.unit.lookup(f.value.id + "." + f.attr, self)
         else:
             bad(e, "call of something that is not a plain function name")
         return self.call_translated(e, callee, list(e.args), env, binds)
+
+    def ctor_args(self, node, cls, args, env, binds):
+        """terms of the attributes of `cls(args…)` in constructor order; omitted trailing arguments take the defaults of
+        `__init__` when these are numeric literals"""
+        fields, types, defaults = self.unit.ctor_info(cls)
+        if len(args) > len(fields):
+            bad(node, "too many constructor arguments")
+        terms = []
+        for k, f in enumerate(fields):
+            if k < len(args):
+                a = args[k]
+                v = self.expr(a, env, binds)
+            else:
+                a = defaults[k]
+                if a is None:
+                    bad(node, "constructor call with a missing argument")
+                v = self.expr(a, {}, [])
+            if v.ty not in ("F", "I"):
+                bad(node, "constructor argument that is not a number")
+            if types[f] == "F":
+                terms.append(self.as_float(a, v))
+            elif v.ty == "I":
+                terms.append(v.term)
+            else:
+                bad(node, "a float where the constructor declares an int")
+        return fields, types, terms
+
+    # ---- loop state
+    def ret_lean(self):
+        if isinstance(self.ret, tuple) and self.ret[0] == "Obj":
+            return self.unit.obj_lean_ty(self.ret[1])
+        return lean_ty(self.ret)
+
+    @staticmethod
+    def stored_names(stmts):
+        """names (re)bound anywhere in the statements (assignment, augmented assignment, loop targets), lists changed by
+        .append / .remove, objects one of whose attributes is stored"""
+        out = set()
+        for st in stmts:
+            for n in ast.walk(st):
+                if isinstance(n, ast.Name) and isinstance(n.ctx, ast.Store):
+                    out.add(n.id)
+                elif isinstance(n, ast.Attribute) and isinstance(n.ctx, ast.Store) and isinstance(n.value, ast.Name):
+                    out.add(n.value.id)
+                elif isinstance(n, ast.Call) and isinstance(n.func, ast.Attribute) and n.func.attr in ("append", "remove") \
+                        and isinstance(n.func.value, ast.Name):
+                    out.add(n.func.value.id)
+        return out
+
+    @staticmethod
+    def has_jump(stmts):
+        return any(isinstance(n, (ast.Return, ast.Break, ast.Continue)) for st in stmts for n in ast.walk(st))
+
+    @staticmethod
+    def has_loop(stmts):
+        return any(isinstance(n, (ast.For, ast.While)) for st in stmts for n in ast.walk(st))
+
+    def loop_state(self, node, stmts, env, exclude):
+        """LOOP STATE of the statements: the variables they (re)bind that exist outside them — in the order in which
+        they were first bound in the function (the order of `env`) — followed by the locals DECLARED `unbound[τ]` in the
+        signature that they bind and that are not bound yet (carried as `Option τ`, initially `none`). A local object
+        contributes one entry per attribute. Returns (entries, env at entry); an entry is (env key, Lean name, type)."""
+        stored = self.stored_names(stmts) - set(exclude)
+        entries, env_in = [], dict(env)
+        for k, t in env.items():
+            if "." in k or k not in stored:
+                continue
+            if isinstance(t, tuple) and t[0] == "R":
+                bad(node, "parameter object %s is rebound in a loop" % k)
+            if isinstance(t, tuple) and t[0] == "Obj":
+                if k in self.readonly:
+                    bad(node, "store into an attribute of a parameter (visible to the caller)")
+                for key, ft in env.items():
+                    if key.startswith(k + "."):
+                        entries.append((key, ident(k + "_" + key[len(k) + 1:]), ft))
+                continue
+            if t == "S":
+                bad(node, "a string is rebound in a loop")
+            if isinstance(t, tuple) and t[0] == "L" and t[1] is None:
+                bad(node, "list %s has no element type at the loop: declare it in the signature" % k)
+            entries.append((k, ident(k), t))
+        for k in sorted(stored):
+            if k not in env and isinstance(self.locals.get(k), tuple) and self.locals[k][0] == "U":
+                entries.append((k, ident(k), self.locals[k]))
+                env_in[k] = self.locals[k]
+        return entries, env_in
+
+    def pack(self, state, env):
+        """the state tuple built from the current bindings"""
+        terms = []
+        for key, lname, ty in state:
+            cur = env.get(key)
+            if cur == ty:
+                terms.append(lname)
+            elif isinstance(ty, tuple) and ty[0] == "U" and cur == ty[1]:
+                terms.append("(some %s)" % lname)
+            elif ty == "F" and cur == "I":
+                self.need("IntCast")
+                terms.append("((%s : Int) : α)" % lname)
+            else:
+                raise Unsupported("variable %s has type %s at the end of the loop body / branch but %s at its start "
+                                  "(declare its type in the signature)" % (key, cur, ty))
+        if not terms:
+            return "()"
+        return terms[0] if len(terms) == 1 else "(" + ", ".join(terms) + ")"
+
+    def sigma(self, state):
+        if not state:
+            return "Unit"
+        if len(state) == 1:
+            return lean_ty(state[0][2])
+        return "(" + " × ".join(lean_ty(t) for _, _, t in state) + ")"
+
+    def unpack(self, state, var):
+        """`let` bindings of the state variables from the tuple `var`"""
+        n = len(state)
+        if n == 1:
+            return "let %s : %s := %s;\n" % (state[0][1], lean_ty(state[0][2]), var)
+        return "".join("let %s : %s := %s;\n" % (lname, lean_ty(ty), tuple_proj(var, i, n)) for i, (_, lname, ty) in enumerate(state))
+
+    def init_terms(self, state, env):
+        """initial state: the current bindings; `none` for a declared maybe-unbound local that is not bound yet"""
+        out = []
+        for key, lname, ty in state:
+            cur = env.get(key)
+            if key not in env:
+                out.append("(none : %s)" % lean_ty(ty))
+            elif cur == ty:
+                out.append(lname)
+            elif isinstance(ty, tuple) and ty[0] == "U" and cur == ty[1]:
+                out.append("(some %s)" % lname)
+            else:
+                raise Unsupported("variable %s: type %s at loop entry, %s expected" % (key, cur, ty))
+        if not out:
+            return "()"
+        return out[0] if len(out) == 1 else "(" + ", ".join(out) + ")"
+
+    def after_loop(self, n, state, env_after, rest, fresh, K):
+        """the code after a loop: the function returned from inside it, or goes on from the final state"""
+        sv, rv = "py_s%d" % n, "py_r%d" % n
+        return ("match %s with\n| Py.Out.ret py_v => %s\n| Py.Out.done %s =>\n%s%s"
+                % (rv, K.ret("py_v"), sv, self.unpack(state, sv), self.block(rest, env_after, fresh, K)))
+
+    def loop_for(self, s, rest, env, fresh, K):
+        if s.orelse:
+            bad(s, "for ... else")
+        if not isinstance(s.target, ast.Name):
+            bad(s, "loop target that is not a plain name")
+        tgt = s.target.id
+        binds = []
+        it = s.iter
+        body_stored = self.stored_names(s.body)
+        if isinstance(it, ast.Call) and isinstance(it.func, ast.Name) and it.func.id == "range" and "range" not in env \
+                and not it.keywords and 1 <= len(it.args) <= 3:
+            vals = [self.expr(a, env, binds) for a in it.args]       # evaluated once, before the loop
+            if any(v.ty != "I" for v in vals):
+                bad(s, "range() of non-ints")
+            if len(vals) == 1:
+                lst = "(Py.range (0 : Int) %s)" % vals[0].term
+            elif len(vals) == 2:
+                lst = "(Py.range %s %s)" % (vals[0].term, vals[1].term)
+            else:
+                t = self.tmp()
+                binds.append((t, "(Py.rangeStep %s %s %s)" % tuple(v.term for v in vals)))
+                lst = t
+            elt = "I"
+        elif isinstance(it, ast.Name) and isinstance(env.get(it.id), tuple) and env[it.id][0] == "L":
+            if it.id in body_stored:
+                bad(s, "the list iterated over is modified in the loop body")
+            if env[it.id][1] is None:
+                bad(s, "list %s has no element type: declare it in the signature" % it.id)
+            lst, elt = ident(it.id), env[it.id][1]
+        else:
+            bad(s, "iteration over something that is neither range(...) nor a list variable")
+        state, env_in = self.loop_state(s, s.body, env, {tgt})
+        if tgt in env and isinstance(env[tgt], tuple) and env[tgt][0] in ("R", "Obj"):
+            bad(s, "loop target shadows an object")
+        self.nloop += 1
+        n = self.nloop
+        sv, rv = "py_s%d" % n, "py_r%d" % n
+        env_body = dict(env_in)
+        env_body[tgt] = elt
+        body = self.block(list(s.body), env_body, fresh, KLoop(self, state))
+        lam = "(fun (%s : %s) (%s : %s) =>\n%s%s)" % (ident(tgt), lean_ty(elt), sv, self.sigma(state), self.unpack(state, sv), body)
+        env_after = {k: t for k, t in env_in.items() if k != tgt}       # the loop variable is not readable after the loop
+        loop = "(Py.forList (ρ := %s) %s %s %s)" % (self.ret_lean(), lam, lst, self.init_terms(state, env))
+        return self.close(binds + [(rv, loop)], self.after_loop(n, state, env_after, rest, fresh - {tgt}, K))
+
+    def loop_while(self, s, rest, env, fresh, K):
+        if s.orelse:
+            bad(s, "while ... else")
+        state, env_in = self.loop_state(s, s.body, env, set())
+        self.nloop += 1
+        n = self.nloop
+        sv, rv = "py_s%d" % n, "py_r%d" % n
+        K2 = KLoop(self, state)
+        t = s.test
+        if isinstance(t, ast.Constant) and (t.value is True or (type(t.value) is int and t.value == 1)):
+            body = self.block(list(s.body), env_in, fresh, K2)          # while True / while 1
+        else:
+            b = []
+            c = self.expr(t, env_in, b)
+            if c.ty != "B":
+                bad(s, "loop condition is not a bool (truthiness is not in the subset)")
+            body = self.close(b, "if %s then\n%s\nelse\n%s" % (c.term, self.block(list(s.body), env_in, fresh, K2), K2.brk(s, env_in)))
+        self.uses_fuel = True
+        lam = "(fun (%s : %s) =>\n%s%s)" % (sv, self.sigma(state), self.unpack(state, sv), body)
+        loop = "(Py.whileLoop (ρ := %s) %s fuel %s)" % (self.ret_lean(), lam, self.init_terms(state, env))
+        return self.close([(rv, loop)], self.after_loop(n, state, dict(env_in), rest, fresh, K))
+
+    def if_join(self, s, rest, env, fresh, K):
+        """`if` without return / break / continue ahead of a loop: both branches yield the tuple of the variables they bind"""
+        state, env_in = self.loop_state(s, [s], env, set())
+        binds = []
+        c = self.expr(s.test, env, binds)
+        if c.ty != "B":
+            bad(s, "condition is not a bool (truthiness is not in the subset)")
+        self.nloop += 1
+        jv = "py_j%d" % self.nloop
+        KJ = KJoin(self, state)
+        a = self.block(list(s.body), env_in, fresh, KJ)
+        b = self.block(list(s.orelse), env_in, fresh, KJ)
+        joined = "(if %s then\n%s\nelse\n%s)" % (c.term, a, b)
+        pre = "".join("let %s : %s := none;\n" % (lname, lean_ty(ty)) for key, lname, ty in state if key not in env)
+        return pre + self.close(binds + [(jv, joined)], self.unpack(state, jv) + self.block(rest, dict(env_in), fresh, K))
 
     # ---- statements
     def coerce(self, node, v, want):
@@ -740,21 +1110,19 @@ class FnTranslator:
             return "(some %s)" % term if rt is not self.ret else term
         return self.coerce(node, self.expr(node, env, binds), self.ret)
 
-    def block(self, stmts, env, fresh):
+    def block(self, stmts, env, fresh, K):
         """fresh: names of lists created in this function (append allowed)"""
         if not stmts:
-            if isinstance(self.ret, tuple) and self.ret[0] == "O":
-                return "(.ok none)"
-            raise Unsupported("a path falls off the end of the function (returns None) but the declared return type is not optional")
+            return K.end(env)
         s, rest = stmts[0], stmts[1:]
         if isinstance(s, ast.Pass):
-            return self.block(rest, env, fresh)
+            return self.block(rest, env, fresh, K)
         if isinstance(s, ast.Expr):
             v = s.value
             if isinstance(v, ast.Constant) and isinstance(v.value, str):
-                return self.block(rest, env, fresh)        # docstring
+                return self.block(rest, env, fresh, K)        # docstring
             if isinstance(v, ast.Call) and isinstance(v.func, ast.Name) and v.func.id == "print" and "print" not in env:
-                return self.block(rest, env, fresh)        # output only
+                return self.block(rest, env, fresh, K)        # output only
             if isinstance(v, ast.Call) and isinstance(v.func, ast.Attribute) and v.func.attr == "append" \
                     and isinstance(v.func.value, ast.Name) and len(v.args) == 1 and not v.keywords:
                 x = v.func.value.id
@@ -777,29 +1145,46 @@ class FnTranslator:
                 env2[x] = ("L", elt)
                 lx = ident(x)
                 if env[x][1] is None:
-                    body = "let %s : %s := [%s];\n%s" % (lx, lean_ty(("L", elt)), term, self.block(rest, env2, fresh))
+                    body = "let %s : %s := [%s];\n%s" % (lx, lean_ty(("L", elt)), term, self.block(rest, env2, fresh, K))
                 else:
-                    body = "let %s := %s ++ [%s];\n%s" % (lx, lx, term, self.block(rest, env2, fresh))
+                    body = "let %s := %s ++ [%s];\n%s" % (lx, lx, term, self.block(rest, env2, fresh, K))
                 return self.close(binds, body)
+            if isinstance(v, ast.Call) and isinstance(v.func, ast.Attribute) and v.func.attr == "remove" \
+                    and isinstance(v.func.value, ast.Name) and len(v.args) == 1 and not v.keywords:
+                x = v.func.value.id
+                if x not in fresh or x not in env or env[x][1] is None:
+                    bad(s, "remove from a list that was not created (and typed) in this function")
+                binds = []
+                a = self.expr(v.args[0], env, binds)
+                elt = env[x][1]
+                if elt == "F" and a.ty in ("F", "I"):
+                    self.need("LE", "DecidableLE")
+                    eqv, term = "Py.feq", self.as_float(v.args[0], a)
+                elif elt == "I" and a.ty == "I":
+                    eqv, term = "(fun (py_a py_b : Int) => decide (py_a = py_b))", a.term
+                else:
+                    bad(s, "remove of a %s from a list of %s" % (a.ty, elt))
+                binds.append((ident(x), "(Py.removeFirst %s %s %s)" % (eqv, ident(x), term)))   # ValueError when absent
+                return self.close(binds, self.block(rest, env, fresh, K))
             bad(s, "expression statement")
         if isinstance(s, ast.Return):
             if s.value is None or (isinstance(s.value, ast.Constant) and s.value.value is None):
                 if isinstance(self.ret, tuple) and self.ret[0] == "O":
-                    return "(.ok none)"
+                    return K.ret("none")
                 bad(s, "returns None but the declared return type is not optional")
             if isinstance(self.ret, tuple) and self.ret[0] == "Obj":
                 fields = self.unit.ctor_fields(self.ret[1])
                 if isinstance(s.value, ast.Name) and env.get(s.value.id) == ("Obj", self.ret[1]):
                     x = s.value.id
-                    return "(.ok (%s))" % ", ".join(ident(x + "_" + f) for f in fields)
+                    return K.ret("(%s)" % ", ".join(ident(x + "_" + f) for f in fields))
                 binds = []
                 v = self.expr_s(s.value, env, binds)
                 if v.ty != self.ret:
                     bad(s, "returns a %s where %s is declared" % (v.ty, self.ret))
-                return self.close(binds, ".ok %s" % v.term)
+                return self.close(binds, K.ret(v.term)[1:-1])
             binds = []
             term = self.ret_value(s.value, env, binds)
-            return self.close(binds, ".ok %s" % term)
+            return self.close(binds, K.ret(term)[1:-1])
         if isinstance(s, ast.Assign):
             if len(s.targets) != 1:
                 bad(s, "chained assignment")
@@ -817,26 +1202,24 @@ class FnTranslator:
                 if not (v.ty == env[key] or (env[key] == "F" and v.ty == "I")):
                     bad(s, "attribute %s changes type" % key)
                 term = self.as_float(s.value, v) if env[key] == "F" else v.term
-                body = "let %s : %s := %s;\n%s" % (ident(tgt.value.id + "_" + tgt.attr), lean_ty(env[key]), term, self.block(rest, env, fresh))
+                body = "let %s : %s := %s;\n%s" % (ident(tgt.value.id + "_" + tgt.attr), lean_ty(env[key]), term, self.block(rest, env, fresh, K))
                 return self.close(binds, body)
             if isinstance(tgt, ast.Name) and isinstance(s.value, ast.Call) and isinstance(s.value.func, ast.Name) \
                     and s.value.func.id not in env and self.unit.ctor_fields(s.value.func.id) is not None:
                 # x = C(a1, .., an) for a class C of this file whose __init__ only stores its parameters
                 x, cls = tgt.id, s.value.func.id
-                fields = self.unit.ctor_fields(cls)
-                if s.value.keywords or len(s.value.args) != len(fields):
-                    bad(s, "constructor call with keyword / defaulted arguments")
+                if s.value.keywords:
+                    bad(s, "constructor call with keyword arguments")
                 binds = []
-                vals = [self.expr(a, env, binds) for a in s.value.args]
+                fields, types, terms = self.ctor_args(s, cls, list(s.value.args), env, binds)
                 env2 = {k: t for k, t in env.items() if not k.startswith(x + ".")}
                 env2[x] = ("Obj", cls)
+                self.readonly.discard(x)
                 lets = []
-                for f, a, v in zip(fields, s.value.args, vals):
-                    if v.ty not in ("F", "I"):
-                        bad(s, "constructor argument that is not a number")
-                    env2[x + "." + f] = "F"          # coordinates are floats
-                    lets.append("let %s : α := %s" % (ident(x + "_" + f), self.as_float(a, v)))
-                return self.close(binds, ";\n".join(lets) + ";\n" + self.block(rest, env2, fresh - {x}))
+                for f, term in zip(fields, terms):
+                    env2[x + "." + f] = types[f]
+                    lets.append("let %s : %s := %s" % (ident(x + "_" + f), lean_ty(types[f]), term))
+                return self.close(binds, ";\n".join(lets) + ";\n" + self.block(rest, env2, fresh - {x}, K))
             if isinstance(tgt, ast.Name) and (isinstance(s.value, ast.Call) and isinstance(s.value.func, ast.Attribute)
                                               or isinstance(s.value, ast.BinOp) and self.is_objexpr(s.value, env)):
                 binds = []
@@ -847,14 +1230,15 @@ class FnTranslator:
                     if fields is None:
                         bad(s, "class %s has no constructor of the accepted form" % cls)
                     t = self.tmp()
-                    lets = ["let %s : (%s) := %s" % (t, " × ".join(["α"] * len(fields)), v.term)]
+                    ftypes = self.unit.ctor_info(cls)[1]
+                    lets = ["let %s : %s := %s" % (t, self.unit.obj_lean_ty(cls), v.term)]
                     env2 = {k: ty for k, ty in env.items() if not k.startswith(x + ".")}
                     env2[x] = ("Obj", cls)
                     self.readonly.discard(x)
                     for i, g in enumerate(fields):
-                        env2[x + "." + g] = "F"
-                        lets.append("let %s : α := %s" % (ident(x + "_" + g), tuple_proj(t, i, len(fields))))
-                    return self.close(binds, ";\n".join(lets) + ";\n" + self.block(rest, env2, fresh - {x}))
+                        env2[x + "." + g] = ftypes[g]
+                        lets.append("let %s : %s := %s" % (ident(x + "_" + g), lean_ty(ftypes[g]), tuple_proj(t, i, len(fields))))
+                    return self.close(binds, ";\n".join(lets) + ";\n" + self.block(rest, env2, fresh - {x}, K))
             if isinstance(tgt, ast.Name):
                 x = tgt.id
                 # list creation
@@ -862,8 +1246,11 @@ class FnTranslator:
                 if (isinstance(val, ast.Call) and isinstance(val.func, ast.Name) and val.func.id == "list" and not val.args
                         and not val.keywords and "list" not in env) or (isinstance(val, ast.List) and not val.elts):
                     env2 = dict(env)
+                    if isinstance(self.locals.get(x), tuple) and self.locals[x][0] == "L":
+                        env2[x] = self.locals[x]     # element type declared in the signature
+                        return "let %s : %s := [];\n%s" % (ident(x), lean_ty(env2[x]), self.block(rest, env2, fresh | {x}, K))
                     env2[x] = ("L", None)       # element type fixed by the first append
-                    return self.block(rest, env2, fresh | {x})
+                    return self.block(rest, env2, fresh | {x}, K)
                 binds = []
                 v = self.expr_s(val, env, binds)
                 ty = v.ty
@@ -872,6 +1259,8 @@ class FnTranslator:
                     want = self.locals[x]
                     if want == "F" and ty in ("F", "I"):
                         term, ty = self.as_float(val, v), "F"
+                    elif want == "I" and ty == "F":
+                        pass        # declared int for its integer-literal bindings; this binding is a float (dynamic typing)
                     elif want != ty:
                         bad(s, "local %s is declared %s but is assigned a %s" % (x, want, ty))
                 elif ty == "I" and v.lit is not None:
@@ -883,11 +1272,11 @@ class FnTranslator:
                         bad(s, "string-valued expression with a part that can raise")
                     env2 = dict(env)
                     env2[x] = "S"           # usable only as an argument of print(): nothing accepts an S
-                    return self.block(rest, env2, fresh - {x})
+                    return self.block(rest, env2, fresh - {x}, K)
                 env2 = dict(env)
                 env2[x] = ty
                 fresh2 = (fresh | {x}) if isinstance(val, ast.List) else (fresh - {x})
-                body = "let %s : %s := %s;\n%s" % (ident(x), lean_ty(ty), term, self.block(rest, env2, fresh2))
+                body = "let %s : %s := %s;\n%s" % (ident(x), lean_ty(ty), term, self.block(rest, env2, fresh2, K))
                 return self.close(binds, body)
             if isinstance(tgt, ast.Tuple) and all(isinstance(t, ast.Name) for t in tgt.elts):
                 binds = []
@@ -903,7 +1292,7 @@ class FnTranslator:
                 for i, n in enumerate(names):
                     env2[n] = v.ty[1][i]
                     lets.append("let %s : %s := %s" % (ident(n), lean_ty(v.ty[1][i]), tuple_proj(t, i, len(names))))
-                body = ";\n".join(lets) + ";\n" + self.block(rest, env2, fresh - set(names))
+                body = ";\n".join(lets) + ";\n" + self.block(rest, env2, fresh - set(names), K)
                 return self.close(binds, body)
             bad(s, "assignment target")
         if isinstance(s, ast.AugAssign):
@@ -917,14 +1306,25 @@ class FnTranslator:
             new = ast.Assign(targets=[tstore], value=ast.BinOp(left=tload, op=s.op, right=s.value))
             ast.copy_location(new, s)
             ast.fix_missing_locations(new)
-            return self.block([new] + rest, env, fresh)
+            return self.block([new] + rest, env, fresh, K)
+        if isinstance(s, ast.For):
+            return self.loop_for(s, rest, env, fresh, K)
+        if isinstance(s, ast.While):
+            return self.loop_while(s, rest, env, fresh, K)
+        if isinstance(s, ast.Break):
+            return K.brk(s, env)           # statements after it on the same path are unreachable
+        if isinstance(s, ast.Continue):
+            return K.cont(s, env)
+        if isinstance(s, ast.If) and self.has_loop(rest) and not self.has_jump([s]) \
+                and all(n in env or (isinstance(self.locals.get(n), tuple) and self.locals[n][0] == "U") for n in self.stored_names([s])):
+            return self.if_join(s, rest, env, fresh, K)
         if isinstance(s, ast.If):
             binds = []
             c = self.expr(s.test, env, binds)
             if c.ty != "B":
                 bad(s, "condition is not a bool (truthiness is not in the subset)")
-            a = self.block(list(s.body) + rest, env, fresh)
-            b = self.block(list(s.orelse) + rest, env, fresh)
+            a = self.block(list(s.body) + rest, env, fresh, K)
+            b = self.block(list(s.orelse) + rest, env, fresh, K)
             return self.close(binds, "if %s then\n%s\nelse\n%s" % (c.term, a, b))
         bad(s, "statement %s" % type(s).__name__)
 
@@ -947,7 +1347,7 @@ class FnTranslator:
                 env[k + "." + fld] = ft
         self._env_names = set(self.params)
         self.assigned = {n.id for n in ast.walk(fdef) if isinstance(n, ast.Name) and isinstance(n.ctx, ast.Store)}
-        body = self.block(list(fdef.body), env, frozenset())
+        body = self.block(list(fdef.body), env, frozenset(), KFun(self))
         alltypes = [t for p, t in self.params.items() if p not in self.records] + [self.ret]
         for r in self.records.values():
             alltypes += list(r.values())
@@ -963,6 +1363,8 @@ class FnTranslator:
         for m in MATH_ORDER:
             if m in self.math:
                 sig.append("(%s : %s)" % (m, MATH_FUNS[m][2]))
+        if self.uses_fuel:
+            sig.append("(fuel : Nat)")
         for p, t in self.params.items():
             if p in self.records:
                 for f, ft in self.records[p].items():
@@ -971,8 +1373,9 @@ class FnTranslator:
                         fields = self.unit.ctor_fields(ft[1])
                         if fields is None:
                             raise Unsupported("class %s has no constructor of the accepted form" % ft[1])
+                        ftypes = self.unit.ctor_info(ft[1])[1]
                         for g in fields:
-                            sig.append("(%s : α)" % ident(base + "_" + g))
+                            sig.append("(%s : %s)" % (ident(base + "_" + g), lean_ty(ftypes[g])))
                     else:
                         sig.append("(%s : %s)" % (ident(base), lean_ty(ft)))
             else:
@@ -981,7 +1384,7 @@ class FnTranslator:
             fields = self.unit.ctor_fields(self.ret[1])
             if fields is None:
                 raise Unsupported("class %s has no constructor of the accepted form" % self.ret[1])
-            rty = "(" + " × ".join(["α"] * len(fields)) + ")"
+            rty = self.unit.obj_lean_ty(self.ret[1])
         else:
             rty = lean_ty(self.ret)
         head = "def %s %s : Py.M %s :=\n" % (self.lean, " ".join(sig), rty)
@@ -1032,9 +1435,12 @@ class Unit:
             return None
         return hits[0]
 
-    def ctor_fields(self, cls):
-        """attribute names, in parameter order, of a class of this file whose __init__ is exactly
-        `self.p = p` for each of its parameters (docstring allowed); None otherwise"""
+    def ctor_info(self, cls):
+        """(attribute names in parameter order, {attribute: type}, [default expression | None per parameter]) of a class
+        of this file whose __init__ is `self.a = p` exactly once for each of its parameters p (any order; docstring
+        allowed), possibly wrapped as `if isinstance(<first parameter>, str): <anything> else: <the stores>` (the string
+        form of the constructor is never taken: the translator only accepts numeric arguments); None otherwise.
+        The type of an attribute is the annotation of its parameter when that is `int`, otherwise float."""
         hit = [n for n in self.tree.body if isinstance(n, ast.ClassDef) and n.name == cls]
         if len(hit) != 1:
             return None
@@ -1047,17 +1453,52 @@ class Unit:
         params = [x.arg for x in a.args]
         body = [st for st in inits[0].body
                 if not (isinstance(st, ast.Expr) and isinstance(st.value, ast.Constant) and isinstance(st.value.value, str))]
-        fields = []
-        for st, pname in zip(body, params[1:]):
+        if len(body) == 1 and isinstance(body[0], ast.If) and len(params) > 1:
+            t = body[0].test
+            if (isinstance(t, ast.Call) and isinstance(t.func, ast.Name) and t.func.id == "isinstance" and len(t.args) == 2
+                    and not t.keywords and isinstance(t.args[0], ast.Name) and t.args[0].id == params[1]
+                    and isinstance(t.args[1], ast.Name) and t.args[1].id == "str"):
+                body = list(body[0].orelse)
+        attr_of = {}
+        for st in body:
             ok = (isinstance(st, ast.Assign) and len(st.targets) == 1 and isinstance(st.targets[0], ast.Attribute)
                   and isinstance(st.targets[0].value, ast.Name) and st.targets[0].value.id == params[0]
-                  and isinstance(st.value, ast.Name) and st.value.id == pname)
+                  and isinstance(st.value, ast.Name) and st.value.id in params[1:] and st.value.id not in attr_of)
             if not ok:
                 return None
-            fields.append(st.targets[0].attr)
-        if len(body) != len(params) - 1 or len(set(fields)) != len(fields):
+            attr_of[st.value.id] = st.targets[0].attr
+        if len(body) != len(params) - 1:
             return None
-        return fields
+        fields = [attr_of[p] for p in params[1:]]
+        if len(set(fields)) != len(fields):
+            return None
+        types = {}
+        for x in a.args[1:]:
+            ann = x.annotation
+            types[attr_of[x.arg]] = "I" if (isinstance(ann, ast.Name) and ann.id == "int") else "F"
+        defaults = [None] * (len(params) - 1 - len(a.defaults)) + list(a.defaults)
+        return fields, types, defaults
+
+    def ctor_fields(self, cls):
+        info = self.ctor_info(cls)
+        return None if info is None else info[0]
+
+    def obj_lean_ty(self, cls):
+        fields, types, _ = self.ctor_info(cls)
+        return "(" + " × ".join(lean_ty(types[f]) for f in fields) + ")"
+
+    def class_constant(self, cls, name):
+        """defining expression of `name`, bound exactly once in the body of class `cls` of this file (class-level
+        constant, e.g. ObsTime.UNIX_BASE_YEAR); a private name `__x` is looked up as written"""
+        hit = [n for n in self.tree.body if isinstance(n, ast.ClassDef) and n.name == cls]
+        if len(hit) != 1:
+            return None
+        vals = [n.value for n in hit[0].body if isinstance(n, ast.Assign) and len(n.targets) == 1
+                and isinstance(n.targets[0], ast.Name) and n.targets[0].id == name]
+        stores = [n for n in ast.walk(self.tree) if isinstance(n, ast.Attribute) and isinstance(n.ctx, ast.Store) and n.attr == name]
+        if len(vals) != 1 or stores:
+            return None
+        return vals[0]
 
     def lookup(self, pyname, caller):
         entry = [e for e in self.entries if e[1] == pyname]
